@@ -369,7 +369,10 @@ impl PayloadHistory {
             match delta.serial().partial_cmp(&serial) {
                 Some(cmp::Ordering::Greater) => return None,
                 Some(cmp::Ordering::Equal) => break,
-                _ => continue
+                Some(cmp::Ordering::Less) => continue,
+                // Serial numbers can be incomparable. In that case the
+                // serial cannot be one of ours.
+                None => return None,
             }
         }
 
